@@ -264,8 +264,21 @@ def run(seed=0, verbose=False):
     return results
 
 
+def load_extensions():
+    """Theory groups added by ttvc/mx_*.py and their interpretations lemmas/spotcheck_ext_*.py (each defines INTERP_EXT)."""
+    import glob, importlib, importlib.util, os
+    from ttvc import units
+    units.load_all()
+    for f in sorted(glob.glob(os.path.join(os.path.dirname(os.path.abspath(__file__)), 'spotcheck_ext_*.py'))):
+        spec = importlib.util.spec_from_file_location(os.path.basename(f)[:-3], f)
+        mod = importlib.util.module_from_spec(spec)
+        spec.loader.exec_module(mod)
+        INTERP.update(mod.INTERP_EXT)
+
+
 if __name__ == '__main__':
     from ttvc import vec  # noqa: F401  (adds the 'sub' group)
+    load_extensions()
     res = run()
     bad = [r for r in res if r[1] == 'FALSIFIED']
     for r in res:
